@@ -70,6 +70,16 @@ def space(tier):
         if not quick or "par[first:" in p["name"] or "par[par[" in p["name"]:
             for pol in ("low", "high"):
                 units.append(({"program": p, "cfg": {"env_kinds": ["crash"], "policy": pol}}, {"crash": 1, "total": 1}, cap))
+    # survivors' large terminal records (3 x 260 KB > the 750 KB batch limit) queued while the winner's record is in
+    # flight: the batch/overflow boundary falls among the survivors' records and the parent's completion record
+    for lat in (0.3,):
+        for dms in (150, 250, 350, 450, 550, 650, 750, 850):
+            big = lambda: [{"k": "step", "fn": {"sleep": dms / 1000.0, "then": {"bytes": 260_000}}},  # noqa: E731
+                           {"k": "step", "fn": {"ret": "next"}}]
+            p = {"name": f"par[first:3-big-survivors={dms}ms;api={int(lat * 1000)}ms]", "seq": [
+                {"k": "par", "cfg": {"cc": "first"}, "branches": [[{"k": "step", "fn": {"ret": "A"}}], big(), big(), big()]},
+                {"k": "sleep", "d": 3}, {"k": "step", "fn": {"ret": "end"}}]}
+            units.append(({"program": p, "cfg": {"env_kinds": [], "api_latency": lat}}, {"total": 0}, cap))
     return units
 
 
@@ -80,4 +90,5 @@ simcheck.install(globals(), "C10", [monitors.judge_c10], space,
                  "top level and inside a child context, plus nesting 2 (the completing context is an inner parallel "
                  "inside a branch); every single crash point (replays in which the completing context and its branches are "
                  "already partly recorded); one preemption at any line of state.py/executor.py on 8 (quick) / all parallel (thorough) "
-                 "programs; all schedules with <=1 (quick) / <=2 (thorough) deviations, policies rtb/low/high")
+                 "programs; 8 programs whose three surviving branches hand over 260 KB records at every 100 ms offset around the "
+                 "winner's 300 ms API calls (batch size limit reached next to the parent's completion record); all schedules with <=1 (quick) / <=2 (thorough) deviations, policies rtb/low/high")
